@@ -155,6 +155,14 @@ CHECKS = {
                         "mesh IDs are relabelled by first appearance before comparing (the ID counter is process-global)",
                         "the quick tier caps the operand size at 32768 triangles (the 131072-triangle class above the 1e5 gates runs in the thorough tier)"],
     },
+    "C07": {
+        "subs": [
+            {"name": "provenance", "bin": "c07_provenance", "variant": "asan",
+             "quick": {"n": 9600, "size": 100}, "thorough": {"n": 400000, "size": 150}},
+        ],
+        "assumptions": ["instances are in general position by construction (two instances never share a transform); coincident instances of one original are not generated",
+                        "property fields are affine in position, or arbitrary per vertex with per-triangle face IDs - the two cases in which the statement promises exact interpolation"],
+    },
 }
 
 PBT = "property-based testing (rapidcheck byte-tape generators, shrinking, replay files)"
@@ -197,4 +205,6 @@ MANIFEST_TEXT["C13"] = {"text": "every parallel primitive called with the Par po
                         "note": "schedules sampled (enumerated only for 8 small container configurations with <=2/3 preemptions)", "technique": PBT + " differential against std algorithms with schedule generation; controlled-scheduler interleaving exploration"}
 MANIFEST_TEXT["C04"] = {"text": "byte fingerprints of every exported field compared across reruns, generated legal TBB schedules and arena widths (mock TBB), real worker counts, and the serial backend in a separate process, over programs that cross the serial/parallel size gates",
                         "note": "schedules and programs sampled; large (>1e5) class only in the thorough tier", "technique": PBT + " differential testing across schedules/backends with a schedule-owning TBB replacement"}
+MANIFEST_TEXT["C07"] = {"text": "exported runs, transforms, face IDs, orientation and per-corner property values of Boolean/Refine results judged against harness-built originals (reserved IDs, face IDs, affine or per-vertex property fields) and the generated instance transforms",
+                        "note": "sampled programs of 2-4 instances; geometry checked at every corner of every triangle", "technique": PBT + " against a reference model of provenance (inputs + generated transforms)"}
 NOT_CLAIMED = {}
